@@ -186,7 +186,7 @@ def run(ck):
                 if pm is None:
                     pm = H.parents(fn)
                 par = pm.get(id(n))
-                negated = par is not None and par.get('k') == 'Unary' and par.get('op') == 'Not'
+                negated = (par is not None and par.get('k') == 'Unary' and par.get('op') == 'Not') or H.selects_by_negated(fn, n) == 'continue'
                 sites.append((fn, n, negated))
     ck.floor('R14.4', len(sites), 4, 'call sites of is_evaluated_constant')
     roles = {}
@@ -224,6 +224,12 @@ def run(ck):
             continue
         filters = [c for c in H.calls_in(chain_root, enter_closures=False) if c.get('m') in ('filter', 'filter_map', 'skip', 'take', 'skip_while', 'take_while', 'step_by')]
         pure = []
+        if H.selects_by_negated(fn, n) == 'continue':
+            # `if p.is_evaluated_constant() { continue; }` at the top of the loop body is the same selection; no other exit of the loop body
+            lp_ = next(a for a in H.ancestors(fn, n) if a.get('k') == 'For')
+            own_exits = [x for x in walk(lp_['body'], enter_closures=False) if x.get('k') in ('Continue', 'Break', 'Ret') and
+                         next((a for a in H.ancestors(fn, x) if a.get('k') in ('For', 'Loop', 'Closure')), None) is lp_]
+            pure.append(len(own_exits) == 1)
         for c in filters:
             cl = c['args'][0] if c['args'] and c['args'][0].get('k') == 'Closure' else None
             v = list(H.value_exprs(cl['body'])) if cl is not None else []
@@ -362,7 +368,11 @@ def run(ck):
             return None
         for i, lp in enumerate(loops):
             ps = H.paths(lp['body'], ev)
-            silent = [(c, e) for c, e, x in ps if 'error' not in e]
+            # a path that leaves through `if p.is_evaluated_constant() { continue; }` is a binding that is not selected at all
+            def unselected(ctx_):
+                return any(lab == 'then' and node.get('k') == 'If' and node['c'].get('k') == 'MCall' and
+                           (H.callee(node['c']) == pred or H.callee_decl(node['c']) == pred) and H.selects_by_negated(bfn, node['c']) == 'continue' for lab, node in ctx_)
+            silent = [(c, e) for c, e, x in ps if 'error' not in e and not unselected(c)]
             what = 'callbacks' if 'callbacks' in pp(lp['iter'], maxlen=200) else 'properties'
             ck.ob('R14.8', 'reject-loop-rejects-on-every-path|%s' % what, bool(ps) and not silent, L.loc(lp),
                   'each of the %d paths through the loop body pushes an error' % len(ps) if not silent else
